@@ -279,14 +279,17 @@ impl BoundsAnalyzer {
         constraints
             .iter()
             .map(|constraint| {
-                let lhs = constraint.lhs().clone().flatten().simplify();
+                // constants are folded before products are distributed, so that
+                // (0.25 + 0.25) * (a + b) is analysed as 0.5a + 0.5b and not as four
+                // terms whose intervals no longer cancel
+                let lhs = constraint.lhs().simplify().flatten().simplify();
                 if constraint.is_logic_assertion() {
                     Constraint::new_logic_assertion(lhs, constraint.name().to_string())
                 } else {
                     Constraint::new(
                         lhs,
                         constraint.constraint_type(),
-                        constraint.rhs().clone().flatten().simplify(),
+                        constraint.rhs().simplify().flatten().simplify(),
                         constraint.name().to_string(),
                     )
                 }
